@@ -84,6 +84,9 @@ func (e *Engine) replay(vc *VC, ob *Obligation, o SolveOpts, outDir string) *Rep
 		rr.Confirmed = outcome == "timeout"
 	case "nil", "idx", "slice", "assert", "div", "mapnil", "panic":
 		rr.Confirmed = outcome == "panic"
+	case "site", "pre":
+		// an assertion about a call's arguments: the witness shows the bad call crashing or hanging
+		rr.Confirmed = outcome == "panic" || outcome == "timeout"
 	}
 	return rr
 }
